@@ -38,7 +38,9 @@ fn bound_enc() -> String { "single values: [-4096,4096], +-2^k and +-(2^k+-1) fo
 /// C11 / C06 (decoder side): parse_vlq_segment agrees with the reference decoder
 pub fn decode() -> Report {
     let alpha: &[u8] = b"ABCDEgh/+90f!~\x7f,;";
-    let bound = "all strings of length <= 4 over a 17-byte alphabet (digits with/without continuation, foreign bytes), plus digit runs of length 1..16";
+    let maxlen = if crate::deep() { 5 } else { 4 };
+    let bound_s = format!("all strings of length <= {maxlen} over a 17-byte alphabet (digits with/without continuation, foreign bytes), plus digit runs of length 1..16");
+    let bound = bound_s.as_str();
     let mut cases = 0u64;
     let mut check = |s: &[u8]| -> Option<String> {
         let st = match std::str::from_utf8(s) { Ok(x) => x, Err(_) => return None };
@@ -63,7 +65,7 @@ pub fn decode() -> Report {
         for &a in alpha { buf.push(a); if let Some(c) = rec(alpha, buf, depth - 1, cases, check) { return Some(c); } buf.pop(); }
         None
     }
-    if let Some(c) = rec(alpha, &mut buf, 4, &mut cases, &mut check) { return Report { harness: "vlq_decode", bound: bound.into(), cases, cex: Some(c) }; }
+    if let Some(c) = rec(alpha, &mut buf, maxlen, &mut cases, &mut check) { return Report { harness: "vlq_decode", bound: bound.into(), cases, cex: Some(c) }; }
     for n in 0..=15usize { for last in [b'A', b'B', b'D', b'P', b'f', b'g'] { for fill in [b'g', b'h', b'/', b'+'] {
         let mut s = vec![fill; n]; s.push(last); cases += 1;
         if let Some(c) = check(&s) { return Report { harness: "vlq_decode", bound: bound.into(), cases, cex: Some(c) }; }
